@@ -115,10 +115,39 @@ def library_view(rules_text, token, is_admin, target_json):
     return out, e
 
 
+def fixed_token(scope, roles=('member',)):
+    tok = {'methods': ['password'], 'user': {'id': 'u1', 'name': 'n', 'domain': {'id': 'default'}},
+           'roles': [{'id': 'x', 'name': r} for r in roles]}
+    if scope == 'project':
+        tok['project'] = {'id': 'p1', 'name': 'p', 'domain': {'id': 'default'}}
+    elif scope == 'domain':
+        tok['domain'] = {'id': 'd1', 'name': 'D'}
+    elif scope == 'system':
+        tok['system'] = {'all': True}
+    return tok
+
+
+def curated_cases():
+    """every token scope x is_admin flag x (no target file, a target with nulls, an empty target) against rules that read the
+    attributes the tool derives (or does not derive) from the token"""
+    rules = {'t:proj': 'project_id:%(project_id)s', 't:notproj': 'not project_id:%(project_id)s',
+             't:dom': 'domain_id:%(project_id)s', 't:user': 'user_id:%(user_id)s', 't:adm': 'is_admin:True',
+             't:notadm': 'not is_admin:True', 't:admfalse': 'is_admin:False', 't:sys': 'system_scope:all',
+             't:none': 'project_id:None', 't:domnone': 'domain_id:None', 't:alias': 'rule:t:proj', 'helper': 'role:member'}
+    out = []
+    for scope in ('project', 'domain', 'system', 'none'):
+        for is_admin in (False, True):
+            for target in (None, {'project_id': None, 'user_id': None}, {'project_id': 'p1', 'user_id': 'u1'}, {}):
+                out.append((dict(rules), fixed_token(scope), is_admin, target))
+    return out
+
+
 def run(run, binfo):
     tier, rng = run.tier, run.rng
     wd = work_dir()
     n = 150 if tier == 'quick' else 5000
+    curated = curated_cases()
+    n += len(curated)
     sample_dir = os.path.join(os.environ.get('VERIF_REPO', '/repo'), 'sample_data')
     tokens = []
     for fn in SAMPLES:
@@ -142,6 +171,8 @@ def run(run, binfo):
         elif rng.random() < 0.25:
             # a target file that is given but flattens to nothing is still THE target (not the caller's own ids)
             target_json = rng.choice([{}, {'target': {}}, {'a': {}, 'b': {'c': {}}}, {'custom': {'deep': {}}}])
+        if i < len(curated):
+            rules, token, is_admin, target_json = curated[i]
         pp = os.path.join(wd, 'pol.json')
         ap = os.path.join(wd, 'tok.json')
         tp = os.path.join(wd, 'tgt.json') if target_json is not None else None
